@@ -3,6 +3,7 @@
 import Pyc.Proofs.Schema
 import Pyc.Props.C02
 import Pyc.Props.C04
+import Pyc.Generated.SyncCalls
 
 namespace Pyc.Props.C04
 open Pyc.Schema Pyc.Generated.SchemaTable RegularExpression
@@ -369,6 +370,77 @@ example : cm_effect_profile_COMMON.rmatch
     ((syncChildren (fun c => exName c == "newparam") [97, 99] ([] ++ [91, 96, 92, 97] ++ [90] ++ [40]) (some 90)).map exName) = true :=
   profile_valid_after_save exName [97, 99] [] [91, 96, 92, 97] [40] 90 (Or.inl rfl) (by decide) (by decide) (by decide) (by decide)
 
+end
+
+/-! ### the arguments of the `_syncChildren` calls, from the source
+
+`translators/sync_calls.py` reads every call of `_syncChildren` in the save methods (which tags it manages, in front of which child a new
+block goes).  `calls_in_source` pins the five calls the theorems above are about to what the source says today; a change of one of them
+(another `managed`, another `before`, the call replaced by something else) breaks it, and with it this module. -/
+
+open Pyc.Generated.SyncCalls Pyc.Sync in
+section
+variable {α : Type} [DecidableEq α]
+
+/-- the `managed` argument of a call, as a predicate on elements -/
+def managedPred (m : Managed) (name : α → String) : α → Bool :=
+  match m with
+  | .all => fun _ => true
+  | .only ts => fun c => ts.contains (name c)
+  | .allBut ts => fun c => !(ts.contains (name c))
+
+/-- `parent.find(tag(t))`: the first child with that tag -/
+def firstNamed (t : Option String) (name : α → String) (l : List α) : Option α :=
+  match t with
+  | none => none
+  | some t => l.find? (fun c => name c == t)
+
+/-- the calls the theorems of this file are about, as they stand in the source (regenerated on every run) -/
+theorem calls_in_source :
+    (⟨"scene.MaterialNode.save#0", "self.xmlnode", .only ["bind_vertex_input"], some "extra"⟩ : Call) ∈ calls ∧
+    (⟨"geometry.Geometry.save#0", "meshnode", .only ["source"], some "vertices"⟩ : Call) ∈ calls ∧
+    (⟨"geometry.Geometry.save#1", "meshnode", .allBut ["source", "vertices", "extra"], some "extra"⟩ : Call) ∈ calls ∧
+    (⟨"material.Effect.save#0", "tecnode", .only ["newparam"], none⟩ : Call) ∈ calls ∧
+    (⟨"material.Effect.save#1", "profilenode", .only ["newparam"], some "technique"⟩ : Call) ∈ calls := by decide
+
+theorem firstNamed_block (t : String) (name : α → String) (B E : List α)
+    (hB : ∀ c ∈ B, name c ≠ t) (hE : ∀ c ∈ E, name c = t) :
+    firstNamed (some t) name (B ++ E) = E.head? := by
+  unfold firstNamed
+  simp only
+  induction B with
+  | nil =>
+    cases E with
+    | nil => rfl
+    | cons e E => simp [List.find?_cons, hE e (by simp)]
+  | cons b B ih =>
+    have hb : (name b == t) = false := by simpa using hB b (by simp)
+    simp only [List.cons_append, List.find?_cons, hb]
+    exact ih (fun c hc => hB c (by simp [hc]))
+
+/-- `instance_material_valid` with the arguments of the call taken from the source: whatever call the table lists for
+    `MaterialNode.save`, if it is the one the table lists today the saved `<instance_material>` is schema-valid -/
+theorem instance_material_valid_src (c : Call) (hc : c ∈ calls) (hs : c.site = "scene.MaterialNode.save#0")
+    (name : α → String) (wanted B I E : List α)
+    (hB : ∀ x ∈ B, name x = "bind") (hI : ∀ x ∈ I, name x = "bind_vertex_input") (hE : ∀ x ∈ E, name x = "extra")
+    (hW : ∀ x ∈ wanted, name x = "bind_vertex_input") :
+    cm_technique_common_instance_material.rmatch
+      ((syncChildren (managedPred c.managed name) wanted (B ++ I ++ E) (firstNamed c.before name (B ++ I ++ E))).map name) = true := by
+  have hcall : c = ⟨"scene.MaterialNode.save#0", "self.xmlnode", .only ["bind_vertex_input"], some "extra"⟩ := by
+    simp only [calls, List.mem_cons, List.mem_nil_iff, or_false] at hc
+    rcases hc with h | h | h | h | h | h | h | h | h | h <;> subst h <;> first | rfl | (exfalso; revert hs; decide)
+  subst hcall
+  have hm : managedPred (Managed.only ["bind_vertex_input"]) name = fun x => name x == "bind_vertex_input" := by
+    funext x; simp [managedPred, List.contains_cons]
+    constructor <;> intro h <;> exact h.symm
+  have hb : firstNamed (some "extra") name (B ++ I ++ E) = E.head? :=
+    firstNamed_block "extra" name (B ++ I) E
+      (fun x hx => by
+        rcases List.mem_append.1 hx with h | h
+        · rw [hB x h]; decide
+        · rw [hI x h]; decide) hE
+  simp only [hm, hb]
+  exact instance_material_valid name wanted B I E hB hI hE hW
 end
 
 end Pyc.Props.C04
